@@ -1644,10 +1644,12 @@ func main() {
 
 	// 6./7. typed mode (typed.go, typed_main.go): Gen/Galois.lean and Gen/Scalar.lean
 	ng, ns := typedFiles(*repo, *out, mr, summary, hash)
+	np, nps := v3Files(*repo, *out, summary, hash)
+	nlt := lintransFile(*repo, *out, summary, hash)
 
 	b, _ := json.MarshalIndent(summary, "", " ")
 	must(os.WriteFile(filepath.Join(*out, "gen_summary.json"), b, 0o644))
-	fmt.Printf("go2lean: %d scalar functions, 2 butterflies, %d kernels, %d SubRing wrappers (+%d NTT delegations), AutomorphismNTTIndex, %d Galois functions, %d RNS-scalar functions\n", len(names), len(metas), len(wmetas), len(delegates), ng, ns)
+	fmt.Printf("go2lean: %d scalar functions, 2 butterflies, %d kernels, %d SubRing wrappers (+%d NTT delegations), AutomorphismNTTIndex, %d Galois functions, %d RNS-scalar functions, %d parameter functions, %d polynomial-split functions, %d lintrans index function\n", len(names), len(metas), len(wmetas), len(delegates), ng, ns, np, nps, nlt)
 }
 
 func must(err error) {
